@@ -164,6 +164,7 @@ def pick_value(rng, kind_char, n):
 
 
 CALLBACK_SHARES = []
+CONVERSION_SHARES = []
 
 
 def call_frame(rng, df, m, pool):
@@ -278,7 +279,17 @@ def call_frame(rng, df, m, pool):
     if m == "copy":
         return "copy", df.copy(), []
     if m in ("to_list_of_dicts", "to_json", "to_pandas", "to_arrow", "to_string"):
-        getattr(df, m)(); return m, None, []
+        getattr(df, m)()
+        # the converted object (an Arrow table, a pandas frame, ...) is data that "shares no memory" with the frame either:
+        # a later in-place edit of the frame must not show in it.  Done on a private deep copy, so the pool is untouched.
+        d2 = df.deepcopy()
+        obj = getattr(d2, m)()
+        image = lambda o: (o.to_pylist() if m == "to_arrow" else o.to_dict("list") if m == "to_pandas" else
+                           [dict(x) for x in o] if m == "to_list_of_dicts" else o)
+        before = repr(image(obj))
+        if poke(d2) and repr(image(obj)) != before:
+            CONVERSION_SHARES.append(m)
+        return m, None, []
     if m == "setitem":
         nm = newname(); df[nm] = [pick_value(rng, "i", n)] * n if n else []; return f"[{nm}] = list", df, []
     if m == "delitem":
@@ -344,6 +355,7 @@ def impl(case):
               "recv_size": int(sum(a.size for a in arrays_of(recv.obj)))}
         result, args = None, []
         del CALLBACK_SHARES[:]
+        del CONVERSION_SHARES[:]
         try:
             if step["on"] == "frame":
                 ev["desc"], result, args = call_frame(rng, recv.obj, step["m"], pool)
@@ -353,6 +365,7 @@ def impl(case):
             ev["err"] = f"{type(e).__name__}: {e}"[:200]
         ev["args"] = args
         ev["callback_shares"] = len(CALLBACK_SHARES)
+        ev["conversion_shares"] = list(CONVERSION_SHARES)
         # (1) every pool object is byte-identical (the receiver of an in-place edit / group_by excepted as documented)
         mutated = []
         for i, e in enumerate(pool):
@@ -470,6 +483,8 @@ def judge(ctx, case, obs, mouts):
         for sh in ev.get("poke_back_seen", []):
             who = "receiver" if sh["is_recv"] else "argument"
             ctx.violation("oracle", f"edit-observed-back:{m}:{who}", f"step {ev['step']} {ev.get('desc', m)}: an in-place edit of the {who} changed the result", case, ev)
+        if ev.get("conversion_shares"):
+            ctx.violation("oracle", f"edit-observed:{m}:converted-object", f"step {ev['step']} {m}: an in-place edit of the frame changed the object {m}() had returned", case, ev)
         if ev.get("callback_shares"):
             ctx.violation("oracle", f"callback-view:{m}", f"step {ev['step']} {ev.get('desc', m)}: the group subset handed to the user function shares memory with the receiver", case, ev)
         if m == "group_by" and "err" not in ev and not ev["returned_is_recv"]:
